@@ -216,6 +216,12 @@ Theorem cow_isolated : forall xs x w' o,
 Proof. exact cow_isolated_full. Qed.
 Print Assumptions cow_isolated.
 
+(* ... and the value-level operation of `cow_isolated` changes nothing but its target tree *)
+Theorem vexec_other : forall ts x k,
+  target x <> Some k -> (k < length ts)%nat -> nth_error (fst (vexec ts x)) k = nth_error ts k.
+Proof. exact vexec_other_proof. Qed.
+Print Assumptions vexec_other.
+
 Theorem ghost_check_never_fires : forall xs x,
   snd (exec (execs (mkSW [] []) xs) x) <> Prelude.E eForeign.
 Proof. exact BTreeRefine5.ghost_check_never_fires. Qed.
